@@ -96,13 +96,51 @@ class Rejected:
 REJ = Rejected()
 
 
+class CaseTimeout(BaseException):
+    """raised inside a worker when one case has used more CPU time than any terminating case plausibly needs"""
+
+
+# CPU seconds (user+sys of the worker, so machine load does not matter) one case may use before the explorer reports
+# it as non-terminating; the slowest legitimate cases need well under a minute (quick) / a few minutes (thorough)
+CASE_CPU_LIMIT = {"quick": 600, "thorough": 3600}
+
+
+def run_case(eng, case, tier, prop, ename, toy=None):
+    """eng.run(case) under a CPU-time guard: a library call that never returns becomes a violation, not a hung check."""
+    import signal
+
+    limit = int(os.environ.get("VERIF_CASE_CPU_LIMIT", CASE_CPU_LIMIT.get(tier, 600)))
+
+    def on_alarm(signum, frame):
+        raise CaseTimeout()
+
+    old = signal.signal(signal.SIGPROF, on_alarm)
+    signal.setitimer(signal.ITIMER_PROF, limit)
+    try:
+        return eng.run(case)
+    except CaseTimeout:
+        r = Res()
+        r.violation(
+            f"{prop}/{ename}/case-does-not-terminate",
+            {"engine": ename, "toy": list(toy) if toy else None, "case": case},
+            f"no result after {limit} CPU seconds",
+            "terminates",
+            "a library call made by this case does not return (cases of this engine normally finish within seconds)",
+        )
+        r.caps.append(f"case stopped after {limit} CPU seconds") if isinstance(r.caps, list) else None
+        return r
+    finally:
+        signal.setitimer(signal.ITIMER_PROF, 0)
+        signal.signal(signal.SIGPROF, old)
+
+
 def attempt(fn, *a, **kw):
     """Call fn; any exception is a rejection.  Library stdout is swallowed."""
     old = sys.stdout
     sys.stdout = io.StringIO()
     try:
         return fn(*a, **kw)
-    except (KeyboardInterrupt, SystemExit, MemoryError):
+    except (KeyboardInterrupt, SystemExit, MemoryError, CaseTimeout):
         raise
     except BaseException as e:  # noqa
         return Rejected(type(e).__name__)
@@ -317,10 +355,14 @@ def _run_chunk(arg):
     eng = {e.name: e for e in mod.engines(tier, seed)}[ename]
     res = Res()
     per_case = []
+    prop = getattr(mod, "PROP", "C??")
+    timed_out = False
     for case in chunk:
         try:
             with quiet():
-                r = eng.run(case)
+                r = run_case(eng, case, tier, prop, ename, _W.get("toy"))
+            if r is not None and any(v["fingerprint"].endswith("/case-does-not-terminate") for v in r.violations):
+                timed_out = True
             if r is not None:
                 res.merge(r)
                 per_case.append(_digest_res(r))
@@ -333,12 +375,12 @@ def _run_chunk(arg):
     # order-perturbed replay: every k-th chunk (perturb_every) is executed a second time in reverse order in the
     # same process; observations must be identical (shared mutable state in the library shows up here)
     pe = perturb_every(tier)
-    if pe and idx % pe == 0 and len(chunk) >= 1:
+    if pe and idx % pe == 0 and len(chunk) >= 1 and not timed_out:
         again = []
         for case in reversed(chunk):
             try:
                 with quiet():
-                    r = eng.run(case)
+                    r = run_case(eng, case, tier, prop, ename, _W.get("toy"))
                 again.append(_digest_res(r) if r is not None else None)
             except (KeyboardInterrupt, SystemExit):
                 raise
@@ -569,7 +611,7 @@ def replay(prop, modname, path):
     obs = []
     for _ in range(2):
         with quiet():
-            r = engs[ename].run(case["case"])
+            r = run_case(engs[ename], case["case"], d.get("tier", "quick"), prop, ename, toy)
         obs.append(sorted((v["fingerprint"], json.dumps(v["observed"], sort_keys=True)) for v in r.violations))
     if obs[0] != obs[1]:
         print("replay: NONDETERMINISTIC — observations differ between two executions")
